@@ -652,6 +652,10 @@ type Plugins struct {
 	W       *verifkit.World
 	Sources map[string]*Source
 	Dests   map[string]*Dest
+	// FailDispense: plugin name -> how many of the next NewDispenser calls for it fail (a plugin binary that cannot be
+	// started / found at that moment).
+	FailDispense map[string]int
+	mu           sync.Mutex
 }
 
 // NewPlugins creates an empty plugin service.
@@ -675,6 +679,14 @@ func (p *Plugins) AddDest(s DestScript) *Dest {
 
 // NewDispenser implements the ConnectorPluginService interfaces of lifecycle, lifecycle-poc and orchestrator.
 func (p *Plugins) NewDispenser(logger log.CtxLogger, name string, _ string) (connectorPlugin.Dispenser, error) {
+	p.mu.Lock()
+	if p.FailDispense[name] > 0 {
+		p.FailDispense[name]--
+		p.mu.Unlock()
+		p.W.Log(name, "dispensefail", -1, "")
+		return nil, fmt.Errorf("verif: plugin %s cannot be dispensed right now", name)
+	}
+	p.mu.Unlock()
 	src, hasSrc := p.Sources[name]
 	dst, hasDst := p.Dests[name]
 	if !hasSrc && !hasDst {
